@@ -510,6 +510,87 @@ def r05_9(chk, P):
     return n
 
 
+def r05_10(chk, P):
+    chk.rule('R05.10', 'the packet vorbis_analysis hands out directly is the one the mapping wrote: the bit buffer whose contents the '
+             'direct-packet branch of vorbis_analysis returns (the argument of oggpack_get_buffer / oggpack_bytes there) is '
+             'designated by a slot of the block\'s packetblob table -- some function stores its address into '
+             'packetblob[i] under `i == C` -- and C is the slot the forward mapping fills when bitrate management is off (the '
+             'constant start of its blob loop on the unmanaged branch).  Without the alias the mapping writes one buffer and '
+             'the application is handed another, empty, one')
+    A = P.need('vorbis_analysis')
+    bufs = set()
+    for c in A.calls():
+        if A.ex[c]['callee'].get('d') in ('oggpack_get_buffer', 'oggpack_bytes') and A.ex[c]['c']:
+            a = A.ex[A.strip_casts(A.ex[c]['c'][0])]
+            if a['k'] == 'un' and a['op'] == '&':
+                m = A.ex[A.strip_casts(a['c'][0])]
+                if m['k'] == 'member':
+                    bufs.add((m.get('record'), m['field']))
+    chk.require(len(bufs) == 1, f'vorbis_analysis: the buffer of the direct packet was not identified ({sorted(bufs)})')
+    rec, fld = next(iter(bufs))
+    # stores of &X->fld into an element of a packetblob-like pointer array
+    sites = []
+    for F in P.functions():
+        for e in F.nodes('assign'):
+            nd = F.ex[e]
+            if nd['op'] != '=':
+                continue
+            r = F.ex[F.strip_casts(nd['c'][1])]
+            l = F.ex[F.strip_casts(nd['c'][0])]
+            if r['k'] == 'un' and r['op'] == '&' and l['k'] == 'sub':
+                m = F.ex[F.strip_casts(r['c'][0])]
+                b = F.ex[F.strip_casts(l['c'][0])]
+                if m['k'] == 'member' and (m.get('record'), m['field']) == (rec, fld) and b['k'] == 'member':
+                    # the slot: constant index, or index variable under an equality test with a constant
+                    slot = common.const_val(F, l['c'][1])
+                    if slot is None:
+                        ix = F.ex[F.strip_casts(l['c'][1])]
+                        for c_, pol in common.controlling_conditions(F, e):
+                            cn = F.ex[F.strip_casts(c_)]
+                            if pol and cn['k'] == 'bin' and cn['op'] == '==' and ix['k'] == 'ref':
+                                x, y = F.ex[F.strip_casts(cn['c'][0])], cn['c'][1]
+                                if x['k'] == 'ref' and x['decl'].get('id') == ix['decl'].get('id'):
+                                    slot = common.const_val(F, y)
+                    sites.append((F, e, (b.get('record'), b['field']), slot))
+    ok1 = bool(sites)
+    chk.ob('R05.10', 'vorbis_analysis', 'direct-packet-buffer-is-a-blob-slot', ok1, sites[0][0].where(sites[0][1]) if sites else A.where(),
+           f'{sites[0][0].name}: `{sites[0][0].s(sites[0][1])}` (slot {sites[0][3]})' if ok1 else
+           f'no function stores &{rec}.{fld} into a blob table: the buffer vorbis_analysis returns is not one the mapping writes')
+    if not sites:
+        return 1
+    tab = sites[0][2]
+    slot = sites[0][3]
+    # the forward mapping: blob loop start on the unmanaged branch
+    n = 1
+    for F in P.functions():
+        if not F.file.endswith('mapping0.c'):
+            continue
+        uses = [e for e in F.nodes('sub') if F.ex[F.strip_casts(F.ex[e]['c'][0])].get('k') == 'member'
+                and (F.ex[F.strip_casts(F.ex[e]['c'][0])].get('record'), F.ex[F.strip_casts(F.ex[e]['c'][0])]['field']) == tab]
+        if not uses:
+            continue
+        for e in uses:
+            ix = F.ex[F.strip_casts(F.ex[e]['c'][1])]
+            starts = []
+            if ix['k'] == 'ref':
+                for q in F.pos:
+                    nd = F.ex[q]
+                    if nd['k'] == 'assign' and nd['op'] == '=':
+                        l = F.ex[F.strip_casts(nd['c'][0])]
+                        if l['k'] == 'ref' and l['decl'].get('id') == ix['decl'].get('id'):
+                            r = F.ex[F.strip_casts(nd['c'][1])]
+                            if r['k'] == 'cond':
+                                starts += [common.const_val(F, r['c'][1]), common.const_val(F, r['c'][2])]
+                            else:
+                                starts.append(common.const_val(F, nd['c'][1]))
+            ok = slot is not None and slot in starts
+            n += 1
+            chk.ob('R05.10', F.name, f'unmanaged-blob-is-the-aliased-slot@{F.loc(e)}', ok, F.where(e),
+                   f'the blob loop starts at one of {starts}; slot {slot} designates the direct-packet buffer' if ok else
+                   f'the blob loop starts at {starts}, the direct-packet buffer is slot {slot}')
+    return n
+
+
 def run(chk, P):
     r05_8(chk, P)
     chk.floor('R05.8', 2)
@@ -526,6 +607,8 @@ def run(chk, P):
     chk.floor('R05.7', 1)
     r05_9(chk, P)
     chk.floor('R05.9', 2)
+    r05_10(chk, P)
+    chk.floor('R05.10', 2)
     chk.notes.append(f'R05.1: {npairs} writer/reader pairs ({[f"{a}<->{b}" for a, b in layout.PAIRS + layout.slot_pairs(P)]}), '
                      f'{nfields} aligned fields role-checked')
     chk.trusted += ['clang 14 front end', 'libogg: oggpack_write(b,v,n) appends the low n bits of v; oggpack_read(b,n) returns them',
